@@ -3,7 +3,7 @@
 From Coq Require Import NArith List Bool Lia.
 From XV Require Import Base.Str Base.Eqb Spec.XmlNs Gen.WriterTables Model.Writer
   Proofs.WriterTree Proofs.WriterStep Proofs.WriterMaps Proofs.WriterEnc Proofs.WriterCtx
-  Proofs.WriterEscape Proofs.WriterWf Proofs.WriterNative Proofs.WriterDenote Proofs.WriterSays.
+  Proofs.WriterEscape Proofs.WriterWf Proofs.WriterNative Proofs.WriterDenote Proofs.WriterSays Proofs.WriterLxml.
 Import ListNotations.
 Open Scope N_scope.
 
@@ -533,4 +533,102 @@ Proof.
   - unfold expected, expected_tree. rewrite Hev, with_root_attrs_flatten, Hit.
     rewrite (denote_node q _ ks eats Hsa) in Hden. inversion Hden. reflexivity.
   - rewrite Hres, (wref_root_as_events cfg _ q ats ks (gf_cfg _ _ _ _ F)), Hw. reflexivity.
+Qed.
+
+(* ------------------------------------------------------------------ lxml writer *)
+Lemma lguard_of t : t_names_ok t = true -> t_lxml_uris t = true -> lguard t = true.
+Proof.
+  intros H1 H2. pose proof (all_nodes_conj _ _ _ _ _ H1 H2) as H. unfold lguard. revert H.
+  apply all_nodes_impl.
+  - intros q ats ks Hn. apply andb_true_iff in Hn as [Hn Hl].
+    apply andb_true_iff in Hn as [Hn A3]. apply andb_true_iff in Hn as [A1 A2].
+    apply andb_true_iff in Hl as [Hl B3]. apply andb_true_iff in Hl as [B1 B2].
+    unfold lnode_ok. apply andb_true_iff. split.
+    + unfold l_qname_ok. unfold name_ok in A1. apply andb_true_iff in A1 as [A1 _]. rewrite A1. exact B1.
+    + apply forallb_forall. intros a Ha. rewrite forallb_forall in A2, A3, B2, B3.
+      unfold lattr_ok. apply andb_true_iff. split.
+      * unfold l_qname_ok. pose proof (A2 a Ha) as Hq. unfold attr_name_ok, name_ok in Hq.
+        apply andb_true_iff in Hq as [Hq _]. apply andb_true_iff in Hq as [Hq _]. rewrite Hq. exact (B2 a Ha).
+      * unfold value_lok, qname_lok. apply forallb_and; [exact (A3 a Ha)|exact (B3 a Ha)].
+  - intros v Hv. apply andb_true_iff in Hv as [V1 V2]. unfold value_lok, qname_lok. apply forallb_and; assumption.
+Qed.
+
+Lemma cfg_xats_lok cfg : cfg_texts_ok cfg = true -> forallb lattr_ok (cfg_xats cfg) = true.
+Proof.
+  unfold cfg_texts_ok, cfg_xats. cbn [forallb]. intros H.
+  apply andb_true_iff in H as [H1 H2]. apply andb_true_iff in H2 as [H2 _].
+  destruct (cfg_schema_location cfg) as [v1|]; destruct (cfg_no_ns_schema_location cfg) as [v2|];
+    repeat match goal with
+           | H : _ && negb _ = true |- _ => apply andb_true_iff in H as [_ H]; apply negb_true_iff in H
+           end;
+    cbn [app forallb]; unfold lattr_ok, attr_conv; cbn [fst snd];
+    rewrite ?conv_plain_text by assumption; reflexivity.
+Qed.
+
+Lemma lnode_extra q xats ats ks :
+  forallb lattr_ok xats = true -> lnode_ok q ats ks = true -> lnode_ok q (xats ++ ats) ks = true.
+Proof.
+  unfold lnode_ok. intros Hx H. apply andb_true_iff in H as [Hq Ha]. rewrite Hq, forallb_app, Hx, Ha. reflexivity.
+Qed.
+
+Lemma lxml_from_facts cfg user evs q ats ks :
+  guard_facts cfg user evs (INode q ats ks) -> evs = flatten (INode q ats ks) ->
+  lxml_domain cfg user evs = true -> t_names_ok (INode q ats ks) = true ->
+  run_lxml cfg user evs
+  = inl (itree_of (wref_root (serializer_ns_map user) (cfg_attrs cfg) q ats ks)).
+Proof.
+  intros F Hev Hdom Hnames.
+  destruct (document_runs (serializer_ns_map user) (cfg_attrs cfg) q ats ks (gf_item _ _ _ _ F)) as [s' Hrun].
+  destruct (gf_a0 _ _ _ _ F) as [Ha0 Hnd0].
+  pose proof (wref_root_wf (user_default user) (serializer_ns_map user) (cfg_attrs cfg) q ats ks
+                (gf_user _ _ _ _ F) Ha0 Hnd0 (gf_wf _ _ _ _ F)) as Hwf.
+  (* the modelled domain *)
+  unfold lxml_domain in Hdom. apply andb_true_iff in Hdom as [Hdu Hdt].
+  unfold on_tree in Hdt. rewrite (gf_tree _ _ _ _ F) in Hdt.
+  assert (Hmap : ldom_map (serializer_ns_map user)).
+  { intros p u Hin. rewrite forallb_forall in Hdu. exact (Hdu _ Hin). }
+  pose proof (lguard_of _ Hnames Hdt) as Hlg. cbn [lguard all_nodes] in Hlg. apply andb_true_iff in Hlg as [Hln Hlk].
+  assert (Hld : sn_ldom (wref_root (serializer_ns_map user) (cfg_attrs cfg) q ats ks)).
+  { rewrite (wref_root_as_events cfg _ q ats ks (gf_cfg _ _ _ _ F)).
+    apply elem_ldom; [apply Forall_forall; intros; apply kid_ldom_all|exact Hmap| |exact Hlk].
+    apply lnode_extra; [apply cfg_xats_lok, (gf_cfg _ _ _ _ F)|exact Hln]. }
+  pose proof (lxml_builds_all _ [] [] None [] [] None Hwf Hld eq_refl
+                (or_intror (conj eq_refl (wref_elem_is_node _ _ _ _ _ _ _)))) as Hs.
+  unfold run_lxml. rewrite (winit_idle cfg _ (gf_cfg _ _ _ _ F)).
+  rewrite (run_events_ext lsteps (steps lstep) lsteps_is_steps).
+  rewrite Hev. rewrite (run_events_wrun lstep _ _ _ _ _ Hrun).
+  rewrite <- lsteps_is_steps. unfold linit. fold (lst None [None] [] [] None). rewrite Hs.
+  cbn [add_kid_l lst l_root]. reflexivity.
+Qed.
+
+Lemma guard_names cfg user evs t : writer_guard cfg user evs = true -> doc_tree evs = Some t -> t_names_ok t = true.
+Proof.
+  unfold writer_guard, events_ok. intros H Ht. apply andb_true_iff in H as [_ He].
+  repeat (apply andb_true_iff in He as [He _]).
+  unfold names_ok, on_tree in He. rewrite Ht in He. exact He.
+Qed.
+
+(* both writers produce the same infoset: the tree lxml builds IS the tree the XML reader
+   resolves from the native writer's text (also the writer half of C08) *)
+Theorem sinks_agree cfg user evs :
+  writer_guard cfg user evs = true -> lxml_domain cfg user evs = true ->
+  exists d t, run_native cfg user evs = inl d /\ resolve d = Some t /\ run_lxml cfg user evs = inl t.
+Proof.
+  intros Hg Hdom. destruct (guard_unpack cfg user evs Hg) as [t F].
+  pose proof (guard_names cfg user evs t Hg (gf_tree _ _ _ _ F)) as Hnames.
+  destruct (doc_tree_sound evs t (gf_tree _ _ _ _ F)) as [Hev [q [ats [ks Ht]]]]. subst t.
+  destruct (native_from_facts cfg user evs q ats ks F Hev) as [d [Hrun Hres]].
+  exists d, (itree_of (wref_root (serializer_ns_map user) (cfg_attrs cfg) q ats ks)).
+  split; [exact Hrun|split; [exact Hres|]]. exact (lxml_from_facts cfg user evs q ats ks F Hev Hdom Hnames).
+Qed.
+
+Theorem writer_sound_lxml cfg user evs :
+  writer_guard cfg user evs = true -> lxml_domain cfg user evs = true ->
+  exists e t, expected cfg evs = Some e /\ run_lxml cfg user evs = inl t /\ doc_says e t = true.
+Proof.
+  intros Hg Hdom.
+  destruct (writer_sound_native cfg user evs Hg) as [e [d [t [He [Hrun [Hres Hsays]]]]]].
+  destruct (sinks_agree cfg user evs Hg Hdom) as [d' [t' [Hrun' [Hres' Hl]]]].
+  rewrite Hrun in Hrun'. inversion Hrun'; subst d'. rewrite Hres in Hres'. inversion Hres'; subst t'.
+  exists e, t. split; [exact He|split; [exact Hl|exact Hsays]].
 Qed.
